@@ -17,7 +17,7 @@ RULE = ("X25519: full cross product of a scalar alphabet (0,1,2,7,8,2^254,2^254+
         "box_beforenm = HSalsa20(q,0), xchacha beforenm = HChaCha20(q,0), kx session keys cross-equal and = BLAKE2b-512(q||cpk||spk), "
         "low-order peer keys refused; ~120 (scalar, point) pairs constructed backwards so that the SHARED SECRET has exactly one non-zero byte at each "
         "byte position / one non-zero word / is 1..4 or p-1..p-3 (must be returned, and accepted by box_beforenm); box/kx seed_keypair = documented hash of the seed for 6 seed patterns x lengths. Every "
-        "(scalar, point, backend) is one distinct case compared with the reference. Call forms with the result written over the point / the "
+        "(scalar, point, backend) is one distinct case compared with the reference. Prefix alphabet: the base point 9 with every value of the last byte, and 0, 1, p-1 and both order-8 u with 16 last bytes, x 4 scalars. Call forms with the result written over the point / the "
         "scalar. Field seam (harness/c05_fe.c): the tree's fe25519 code in both radices on (element, element, op) for ~100^2 (thorough 130^2) structured "
         "elements x 20 operation shapes (decode, one lazy add/sub, mul/sq/sq2/mul32/neg/invert/cmov/cswap, full reduction) vs Python integers. Dense differential family: 2^21 (thorough 2^24) declared counter-generated (scalar, point) pairs through the sandy2x, fe51 and "
         "fe25.5 ladders, per-block digests compared, differing cases judged by the reference (a bounded deterministic family, not a class "
@@ -93,6 +93,20 @@ def point_alphabet():
         enc.append(ec.x25519(le(8 * k), le(9)))
     enc += [pat("R1", 32, 5), pat("R2", 32, 6), pat("F", 32), pat("H", 32, 7)]
     return list(dict.fromkeys(enc))
+
+
+def prefix_alphabet():
+    """points that share their first 31 bytes with a distinguished encoding (base point 9, 0, 1, p-1 and the two order-8 u) and differ only in
+    the last byte: every value of the last byte for the base point, 16 values for the others - a comparison that looks at a prefix only
+    (fast paths, block lists) treats them as the distinguished point"""
+    out = []
+    specials = [9, 0, 1, P - 1, 325606250916557431795983626356110631294008115727848805560023387167927233504,
+                39382357235489614581723060781553021112529911719440698176882885853963445705823]
+    for si, u in enumerate(specials):
+        low = le(u)[:31]
+        for top in (range(256) if si == 0 else (0, 1, 2, 0x0f, 0x10, 0x3f, 0x40, 0x57, 0x7e, 0x7f, 0x80, 0x81, 0xb8, 0xc0, 0xfe, 0xff)):
+            out.append(low + bytes([top]))
+    return list(dict.fromkeys(out))
 
 
 L_TWIST = 2**253 - 55484635554744707071703875581767296995      # prime factor of the twist order 4*L_TWIST
@@ -346,6 +360,7 @@ def main(tier):
     t0 = time.time()
     import ec25519 as ec
     S, Pts = scalar_alphabet(), point_alphabet()
+    PtsX = [p_ for p_ in prefix_alphabet() if p_ not in Pts]; S_X = [S[i] for i in (5, 9, 20, 33)] if len(S) > 33 else S[:4]
     with mp.Pool(16) as pool:
         ref = pool.map(_ref_row, [(s, Pts) for s in S])
     nk = 24 if tier == "quick" else 40
@@ -361,6 +376,10 @@ def main(tier):
     struct = structured_outputs()
     for s_, p_, w_ in struct:                     # the construction itself is validated against the plain RFC 7748 ladder
         assert ec.x25519(s_, p_) == w_, "structured-output construction is wrong"
+    for s_ in S_X:                                # prefix alphabet: evaluated like the structured outputs (non-zero shared secrets must be returned)
+        for p_ in PtsX:
+            w_ = ec.x25519(s_, p_)
+            if w_ != bytes(32): struct.append((s_, p_, w_))
     outs = pylib.pool_map(_backend_worker, [(v, c, S, Pts, ref, kpairs, struct) for v, c in BACKENDS], len(BACKENDS))
     total = 0; tags = []
     for tag, feats, n, fails in outs:
